@@ -154,7 +154,7 @@ pub fn run_batch(prop: &str, tier: &str, seed: u64, runs: usize, wall_cap_s: u64
     let w = workers();
     let p = prop.to_string();
     let started = std::time::Instant::now();
-    let child_timeout = if tier == "thorough" { 400 } else { 120 };
+    let child_timeout = if tier == "thorough" { 900 } else { 300 };
     let results = parallel_eval(runs, w, child_timeout, wall_cap_s, &move |i| {
         gen_case(&p, run_seed(seed, i as u64))
     });
